@@ -14,6 +14,10 @@ from vlib import Check, ToolError
 
 ADDRS = {"a1": ("10.1.0.1", 80), "a2": ("10.1.0.2", 80), "a3": ("10.1.0.3", 80), "a4": ("10.1.0.4", 80)}
 HADDRS = {"h1": ("10.2.0.1", 80), "h2": ("10.2.0.2", 80), "h3": ("10.2.0.3", 80)}
+# enabled, weight.  Only values that the registration marks as "given" (InstanceUpdateTag: a weight of 1.0 and
+# enabled = true count as "not specified" and leave an existing value alone - by design, so that a value set in
+# the console survives a re-registration): every registration here overwrites the attributes
+ATTRS = {"w2": (True, 2.0), "w3": (True, 3.0), "w4": (True, 4.0)}
 SVC = "svc15"
 ENV = {"RNACOS_NAMING_HEALTH_TIMEOUT_SECOND": "3600", "RNACOS_NAMING_INSTANCE_TIMEOUT_SECOND": "7200"}
 SETTLE_S = 29.0     # two anti-entropy intervals (12 s, checked every 3 s) + batch delay
@@ -69,14 +73,15 @@ class Scenario:
             conns.append({"c": name, "home": h})
         self.trace.insert(0, {"ev": "setup", "conns": conns})
 
-    def reg(self, c, a):
+    def reg(self, c, a, at="w2"):
         ip, port = ADDRS[a]
-        r = self.clients[c].call({"op": "register", "service": SVC, "ip": ip, "port": port})
-        self.ops.append({"op": "reg", "c": c, "a": a, "res": r.get("res")})
+        en, w = ATTRS[at]
+        r = self.clients[c].call({"op": "register", "service": SVC, "ip": ip, "port": port, "enabled": en, "weight": w})
+        self.ops.append({"op": "reg", "c": c, "a": a, "at": at, "res": r.get("res")})
         if r.get("res") != "ok":
             raise ToolError("register over an open connection failed: %s" % r)
         self.reg_by[a] = c
-        self.ev(ev="reg", c=c, a=a)
+        self.ev(ev="reg", c=c, a=a, at=at)
         if self.clients[c].server_id is None:
             d = self.clients[c].node.call({"op": "ns_dump"})
             for i in d.get("instances", []):
@@ -139,7 +144,10 @@ class Scenario:
             hnames = {"%s:%d" % v: k for k, v in HADDRS.items()}
             for i in d["instances"]:
                 if i["service"] == SVC:
-                    view.append({"a": names.get("%s:%s" % (i["ip"], i["port"]), "?"), "c": ids.get(i["client"], "?" + str(i["client"]))})
+                    at = next((k for k, (en, w) in ATTRS.items() if en == i["enabled"] and abs(w - i["weight"]) < 1e-6), "?%s/%s" % (i["enabled"], i["weight"]))
+                    if not i["healthy"]:
+                        at = "unhealthy:" + at
+                    view.append({"a": names.get("%s:%s" % (i["ip"], i["port"]), "?"), "c": ids.get(i["client"], "?" + str(i["client"])), "at": at})
                 elif i["service"].startswith(SVC + "-"):
                     hview.append(hnames.get("%s:%s" % (i["ip"], i["port"]), "?"))
             out[n] = (sorted(view, key=lambda x: x["a"]), sorted(hview))
@@ -169,15 +177,15 @@ class Scenario:
                 # while the first one stays open
                 self.open_clients([1, 1, 2])
                 self.reg("c1", "a1")
-                self.reg("c3", "a2")
+                self.reg("c3", "a2", "w3")
                 time.sleep(2.0)
-                self.reg("c2", "a1")
+                self.reg("c2", "a1", "w4")
                 self.settle_and_read(rounds=4)
             elif self.kind == "node_death":
                 self.open_clients([1, 2, 2, 3])
                 self.reg("c1", "a1")
-                self.reg("c2", "a2")
-                self.reg("c3", "a3")
+                self.reg("c2", "a2", "w3")
+                self.reg("c3", "a3", "w4")
                 self.reg("c4", "a4")
                 self.hreg(1, "h1")
                 self.hreg(2, "h2")
@@ -198,7 +206,7 @@ class Scenario:
                         c = self.rng.choice(live)
                         fa = self.free_addr(c)
                         if fa:
-                            self.reg(c, self.rng.choice(fa))
+                            self.reg(c, self.rng.choice(fa), self.rng.choice(sorted(ATTRS)))
                     elif x < 0.55 and live:
                         mine = [(a, c) for a, c in self.reg_by.items() if c in live]
                         if mine:
@@ -272,6 +280,13 @@ def run(tier):
     mc = vlib.tlc_mc("MC_Distro.tla", "MC_Distro.cfg" if quick else "MC_Distro_thorough.cfg", name="c15_mc", timeout=3000, workers=12)
     vlib.require_actions(mc, ["Register", "Deregister", "Close", "DistroRound", "Die", "Start"])
     c.add_mc(mc)
+    pres = vlib.tlc_mc("MC_Distro.tla", "MC_Distro_reorder_presence.cfg", name="c15_mc2", timeout=3000, workers=12)
+    c.add_mc(pres)
+    ro = vlib.tlc_mc("MC_Distro.tla", "MC_Distro_reorder.cfg", expect_violation="Converges", name="c15_obs")
+    c.cov["notes"].append("model-level observation (not reproduced on the cluster: the driver cannot reorder or drop sync messages): with "
+                          "AllowReorder = TRUE and two attribute values TLC violates Converges (%s) - an attribute change that is overtaken "
+                          "is never repaired because the anti-entropy round compares keys only; with one attribute value (presence only) "
+                          "Converges holds under reordering" % ro["violated"])
     n = vlib.tlc_mc("MC_Distro.tla", "MC_Distro_defect.cfg", expect_violation="Converges", name="c15_neg")
     c.add_negative_control("Distro where a sync update leaves the key in the old client's index violates Converges (the "
                            "anti-entropy round keeps deleting and re-fetching a live instance)", n["violated"])
@@ -338,7 +353,10 @@ def run(tier):
         "services (routed to the owner node by NamingRoute; issued only while no unnoticed dead node could be picked as "
         "owner); heartbeat expiry is C13's subject (the time-outs are set to hours); HTTP instances are specified at "
         "contract level only (the set registered and not deregistered), the message-level model covers the gRPC side",
-        "compared per node: address and owning connection of every instance (health, enabled and weight are constant here)",
+        "compared per node: address, owning connection, enabled state and weight of every instance (three weights, each one "
+        "marked as 'given' by the registration so that a re-registration overwrites it; enabled = true throughout because a "
+        "registration cannot re-enable an instance, by design); health is constant (gRPC instances have no heartbeat expiry) and an unhealthy instance "
+        "would be reported as a different attribute",
     ]
     shutil.rmtree(sc_dir, ignore_errors=True)
     return c.finish(
